@@ -100,6 +100,28 @@ K("O13.3c", ["C13"], "vm", "c13_array_alias", level="bounded", bound="array of l
   desc="sharing by reference: a write through one copy (or through the copy nested in another array) is read through every alias; out-of-range leaves the array unchanged")
 
 # ---------------------------------------------------------------------------------------------
+# C14 builtins
+# ---------------------------------------------------------------------------------------------
+K("O14.1", ["C14", "C02"], "builtins", "c14_builtin_bytes", functions=["Builtin (repr u8)"],
+  desc="bytes 0..=6 are exactly the seven builtins (the VM's transmute::<u8,Builtin> is sound for every byte the compiler can emit)")
+K("O14.1n", ["C14"], "builtins", "c14_resolve_names", level="bounded", bound="7 documented names + 5 near misses, concrete", functions=["builtins::resolve"],
+  desc="resolve knows exactly the documented names")
+K("O14.0", ["C14"], "builtins", "c14_dispatch", functions=["builtins::call"], desc="call dispatches every builtin byte to its own function (callees replaced by recorders)")
+K("O14.2", ["C14", "C05"], "builtins", "c14_arity", needs_fmt_stub=True,
+  functions=["builtins::call", "call_type", "call_bool", "call_float", "call_int", "call_string", "call_length"],
+  desc="0, 2 or 3 arguments of ANY words to any builtin but print: ArgumentError, no argument inspected")
+K("O14.3b", ["C14", "C05"], "builtins", "c14_bool", needs_fmt_stub=True, functions=["call_bool"],
+  desc="bool(x) for all words/payloads: null nee; bool identity (same word); int x>0; float x>0.0; text/array non-empty; function ArgumentError")
+K("O14.3i", ["C14", "C05", "C06"], "builtins", "c14_int", needs_fmt_stub=True, functions=["call_int", "Object::checked_int"],
+  desc="int(x) for all words / all 2^64 float payloads: null 0; bool 0/1; int identity; float truncates toward zero or errors outside the 61-bit range (never wraps); array/function/empty text ArgumentError")
+K("O14.3f", ["C14", "C05"], "builtins", "c14_float", needs_fmt_stub=True, functions=["call_float"],
+  desc="float(x) for all words: null 0.0; bool 0/1; float identity (same word); int -> `as f64` (round trip exact below 2^53); array/function ArgumentError")
+K("O14.3l", ["C14", "C05"], "builtins", "c14_length_type_error", needs_fmt_stub=True, functions=["call_length"],
+  desc="lengte of null/int/bool/function/float: TypeError (all words)")
+K("O14.3la", ["C14", "C13"], "builtins", "c14_length_array", level="bounded", bound="arrays of 0, 1, 2 elements", needs_fmt_stub=True, functions=["call_length"],
+  desc="lengte(array) is the number of elements")
+
+# ---------------------------------------------------------------------------------------------
 # per-property information for the evidence files
 # ---------------------------------------------------------------------------------------------
 NOT_APPLICABLE = {
@@ -108,6 +130,14 @@ NOT_APPLICABLE = {
 }
 
 PROPERTIES = {
+    "C14": {
+        "level": "proof",
+        "claim": "For ALL argument words: wrong arity is an ArgumentError for every builtin but print; bool/int/float conversions of null, bool, int, float (all 2^64 payloads), array, function are the documented value or the documented error, converting a value to its own type returns the very same word, int(float) truncates toward zero and never wraps; dispatch byte <-> builtin is total on 0..=6. Proved by loop-free Kani harnesses on the real builtins.rs with heap reads replaced by their contracts.",
+        "note": "Trusted: Kani/CBMC. NOT decided (std formatting / parsing loops are out of CBMC's reach and have no Verus model): type(x) and string(x) result text, int/float of text, number -> text -> number round trip, print's placeholder substitution. Bounded: lengte of arrays (<= 3), resolve (12 concrete names).",
+        "design_ref": "DESIGN.md 3.4",
+        "undecided": ["call_print placeholder substitution", "call_type / call_string result text (std::fmt machinery)", "int(text) / float(text) parsing, number->text->number round trip (std FromStr/Display)"],
+        "assumptions": ["callee contracts as_f64_unchecked / as_str_unchecked / as_vec_unchecked / Object::float as proved by O15.7, O15.8a/b"],
+    },
     "C13": {
         "level": "proof",
         "claim": "Array element read/write is proved for arrays of EVERY length and every index (Verus on the verbatim bodies of index_get_array/index_set_array: whole-view postcondition, negative indices from the back, IndexError leaves the array unchanged); the index/target type discipline of index_get/index_set is proved for ALL words (Kani, modular); aliasing only by a bounded stand-in; the character-based string operations are NOT decided (out of reach of both back ends).",
